@@ -588,6 +588,12 @@ func (runInfo *runInfoStruct) runForChanStmt(stmt *ast.ForStmt, value reflect.Va
 	var chosen int
 	var ok bool
 	for {
+		if runInfo.interrupted() {
+			// cancelled before the operation starts: never a matter of which case Select picks
+			runInfo.err = ErrInterrupt
+			runInfo.rv = nilValue
+			return
+		}
 		cases := []reflect.SelectCase{{
 			Dir:  reflect.SelectRecv,
 			Chan: reflect.ValueOf(runInfo.ctx.Done()),
@@ -990,6 +996,12 @@ func (runInfo *runInfoStruct) runChanStmt(stmt *ast.ChanStmt) {
 	// rhs is channel
 	// receive from rhs channel
 	rhs := runInfo.rv
+	if runInfo.interrupted() {
+		// cancelled before the operation starts: never a matter of which case Select picks
+		runInfo.err = ErrInterrupt
+		runInfo.rv = nilValue
+		return
+	}
 	cases := []reflect.SelectCase{{
 		Dir:  reflect.SelectRecv,
 		Chan: reflect.ValueOf(runInfo.ctx.Done()),
